@@ -32,7 +32,9 @@ def shard(args):
             ops = nops
             kind += '+reqcuts'
         cfg = {'PERSONALITY': r.randrange(10), 'URLENC_PARSER': 1, 'MULTIPART_PARSER': r.randrange(2), 'DUMP': hxb.DUMP_TX | hxb.DUMP_BODY,
-               'AUTO_DESTROY': 1 if r.chance(0.2) else 0, 'TX_HOOKS': r.randrange(2), 'CFG_COPY': 1 if r.chance(0.1) else 0}
+               'AUTO_DESTROY': 1 if r.chance(0.2) else 0, 'TX_HOOKS': r.randrange(2), 'CFG_COPY': 1 if r.chance(0.1) else 0,
+               # the two request-field switches, independently (what is switched on must be reported whatever the other switch says)
+               'PARSE_COOKIES': 0 if r.chance(0.15) else 1, 'PARSE_AUTH': 0 if r.chance(0.15) else 1}
         cases.append((i, cfg, ops))
         meta[i] = (ex, cfg, kind, ops)
     path = os.path.join(wd, 'b%d.hxb' % s)
